@@ -145,6 +145,13 @@ class G:
 
     def op(self, ctx_ok=True, nargs=None):
         self.n_op += 1
+        if nargs is None and self.b(1, 14):
+            # an operation that ends the flow of the entity it runs on - run on another entity (inline context, or the
+            # with-block this call is made for) it is an ordinary statement
+            o = {"k": "op", "name": "Destroy", "args": [], "ctx": None}
+            if ctx_ok:
+                o["ctx"] = {"type": self.pick(["actor", "object", "performer"]), "val": self.ctx_target()}
+            return o
         if self.b(1, 5):
             name = self.pick(T.PLAIN_OPS)
             args = [{"t": "int", "v": 100000 + self.n_op}]
